@@ -95,7 +95,7 @@ func nativeRun(repo, verif string, dirFiles map[string][]string, h harnessInfo, 
 	ov := overlayFor(repo, verif, dirFiles, dirs, map[string]string{filepath.Join(repo, h.Dir, "zz_verif_replay_test.go"): testFile})
 	// schedule control: instrumented copies of every file of the package (sync points, go statements)
 	instrumented := map[string]bool{}
-	if replayHasSchedule(replayPath) {
+	if replayHasSchedule(replayPath) || replayWantsDisk(replayPath) {
 		srcs := map[string][]byte{}
 		var dirs []string
 		for d := range loadedPkgs {
@@ -117,6 +117,9 @@ func nativeRun(repo, verif string, dirFiles map[string][]string, h harnessInfo, 
 			src = reTimeSince.ReplaceAll(src, []byte("verifrt.Since("))
 			if bytes.Contains(src, []byte("\"time\"")) {
 				src = append(src, []byte("\nvar _ = time.Now\n")...)
+			}
+			if bytes.Contains(src, []byte("\n\t\"os\"\n")) || bytes.Contains(src, []byte("import \"os\"")) {
+				src = append(src, []byte("\nvar _ = os.Args\n")...)
 			}
 			k++
 			cp := filepath.Join(tmp, fmt.Sprintf("ins%d_%s", k, filepath.Base(vpath)))
@@ -202,6 +205,7 @@ func replayNative(repo, verif string, dirFiles map[string][]string, h harnessInf
 
 func replayWitness(repo, verif string, dirFiles map[string][]string, h harnessInfo, path, label string, predicted map[string]uint64) (bool, string) {
 	out, _ := nativeRun(repo, verif, dirFiles, h, path)
+	os.WriteFile(strings.TrimSuffix(path, ".json")+".native.log", []byte(out), 0o644)
 	if !strings.Contains(out, "VERIF-END") {
 		return false, "native run did not finish: " + tail(out, 600)
 	}
@@ -332,4 +336,22 @@ func instrumentedSources(dir string) (map[string][]byte, error) {
 	}
 	insCache[dir] = c
 	return c, nil
+}
+
+// replayWantsDisk: harnesses with crash points / disk faults carry a "disk:" value.
+func replayWantsDisk(path string) bool {
+	data, err := os.ReadFile(path)
+	if err != nil {
+		return false
+	}
+	var r replayJSON
+	if json.Unmarshal(data, &r) != nil {
+		return false
+	}
+	for k := range r.Values {
+		if strings.HasPrefix(k, "choice:disk:") || strings.HasPrefix(k, "disk:") {
+			return true
+		}
+	}
+	return false
 }
